@@ -16,7 +16,8 @@ META = {
              "non-trivial when some insert displaces an existing pair (hits an existing key or "
              "value with a different partner) or a delete of an absent key is attempted after a "
              "displacement"),
-    "required": ["monitor:lockstep-step", "monitor:ctor", "cases:exhaustive", "cases:random",
+    "required": ["monitor:lockstep-step", "monitor:ctor", "cases:exhaustive", "cases:random", "cases:blind",
+                 "monitor:blind-history", "monitor:history-from-constructed-map",
                  "monitor:icontract-invariant"],
     "reach": ["hugr.utils:BiMap.insert_left", "hugr.utils:BiMap.delete_left",
               "hugr.utils:BiMap.delete_right", "hugr.utils:BiMap.insert_right"],
@@ -122,7 +123,40 @@ def model_apply(f: dict, op):
             return "KeyError"
         del f[ks[0]]
         return "ok"
+    if name == "pop":
+        k = TOK[op[1]]
+        if k not in f:
+            return "KeyError"
+        return ("ok", f.pop(k))
+    if name == "clear":
+        f.clear()
+        return "ok"
+    if name == "update":
+        for a, b in upd_pairs(op):
+            model_apply(f, ["setitem", a, b])
+        return "ok"
+    if name == "setdefault":
+        k = TOK[op[1]]
+        if k in f:
+            return ("ok", f[k])
+        model_apply(f, ["setitem", op[1], op[2]])
+        return ("ok", TOK[op[2]])
+    if name == "popitem":
+        return "popitem"    # which pair goes is not specified: handled by the caller
     raise AssertionError(name)
+
+
+MAPPING_OPS = ["pop", "clear", "update", "setdefault", "popitem"]
+
+
+def upd_pairs(op):
+    """the pairs an update hands over: as given (list of pairs) or what a dict literal of them holds"""
+    if not op[2]:
+        return [tuple(p) for p in op[1]]
+    d = {}
+    for a, b in op[1]:
+        d[TOK[a]] = (a, b)      # keyed by VALUE of the token: 0 / "" / () are different keys, equal tokens collapse
+    return list(d.values())
 
 
 def real_apply(bm, op):
@@ -140,6 +174,17 @@ def real_apply(bm, op):
             bm.delete_right(fresh(op[1]))
         elif name == "delitem":
             del bm[fresh(op[1])]
+        elif name == "pop":
+            return ("ok", bm.pop(fresh(op[1])))
+        elif name == "clear":
+            bm.clear()
+        elif name == "update":
+            pairs = [(fresh(a), fresh(b)) for a, b in upd_pairs(op)]
+            bm.update(dict(pairs) if op[2] else pairs)
+        elif name == "setdefault":
+            return ("ok", bm.setdefault(fresh(op[1]), fresh(op[2])))
+        elif name == "popitem":
+            return ("ok", bm.popitem())
     except KeyError:
         return "KeyError"
     return "ok"
@@ -169,6 +214,11 @@ def compare(ctx, bm, f, dom, step, stratum, case):
     it = list(iter(bm))
     if sorted(map(repr, it)) != sorted(map(repr, f)) or len(it) != len(f):
         bad("iter", list(f), it)
+    if hasattr(bm, "keys") and hasattr(bm, "values"):
+        if sorted(map(repr, bm.keys())) != sorted(map(repr, f)) or len(bm.keys()) != len(f):
+            bad("keys", list(f), list(bm.keys()))
+        if sorted(map(repr, bm.values())) != sorted(map(repr, f.values())) or len(bm.values()) != len(f):
+            bad("values", list(f.values()), list(bm.values()))
     inv = {v: k for k, v in f.items()}
     fwd = getattr(bm, "fwd", None)
     bck = getattr(bm, "bck", None)
@@ -193,30 +243,62 @@ def compare(ctx, bm, f, dom, step, stratum, case):
             bad(["getitem", t], want, got)
         if (x in bm) != (x in f):
             bad(["contains", t], x in f, x in bm)
+        if hasattr(bm, "get"):
+            sentinel = ("absent",)
+            wantd = f.get(x, sentinel)
+            gotd = bm.get(x, sentinel)
+            if gotd != wantd or type(gotd) is not type(wantd):
+                bad(["get-with-default", t], wantd, gotd)
 
 
 def state_of(f):
     return sorted((repr(k), repr(v)) for k, v in f.items())
 
 
-def run_history(ctx, hist, dom, stratum):
+def run_history(ctx, hist, dom, stratum, init=None, blind=False):
+    """init: pairs the map is constructed from (an injective mapping); blind: nothing is read between the calls (no
+    query, no invariant walk) -- the whole comparison happens once at the end"""
     from hugr.utils import BiMap
 
-    bm = BiMap()
     f: dict = {}
+    if init:
+        for a, b in init:
+            f[TOK[a]] = TOK[b]
+        bm = BiMap({fresh(a): fresh(b) for a, b in init})
+        ctx.count("monitor:history-from-constructed-map")
+    else:
+        bm = BiMap()
     displaced = False
     prev = ctx.state(state_of(f))
+    case = hist if not init else {"init": init, "hist": hist}
     for step, op in enumerate(hist):
+        if op[0] in MAPPING_OPS and not hasattr(bm, op[0]):
+            ctx.count(f"absent:BiMap.{op[0]}")     # (only there while the class is a MutableMapping)
+            continue
         displaced = displaced or is_displacing(f, op)
         exp = model_apply(f, op)
         obs = real_apply(bm, op)
-        if exp != obs:
+        if exp == "popitem":
+            # some live pair is returned and removed (an empty map raises KeyError)
+            if not f:
+                exp = "KeyError"
+            elif isinstance(obs, tuple) and obs[0] == "ok" and isinstance(obs[1], tuple) and len(obs[1]) == 2 \
+                    and obs[1][0] in f and f[obs[1][0]] == obs[1][1]:
+                del f[obs[1][0]]
+                exp = obs
+            else:
+                exp = "('ok', a live pair)"
+        if exp != obs or (isinstance(exp, tuple) and type(exp[1]) is not type(obs[1])):
             ctx.disc(None, "outcome-mismatch", {"step": step, "op": op}, exp, obs,
-                     stratum=stratum, case=hist)
-        compare(ctx, bm, f, dom, step, stratum, hist)
+                     stratum=stratum, case=case)
+        if not blind:
+            compare(ctx, bm, f, dom, step, stratum, case)
         cur = ctx.state(state_of(f))
         ctx.transition(prev, op, cur)
         prev = cur
+    if blind:
+        ctx.count("monitor:blind-history")
+        compare(ctx, bm, f, dom, len(hist), stratum, case)
     return displaced
 
 
@@ -228,8 +310,29 @@ def run_ctor(ctx, pairs, stratum="ctor"):
         mapping[TOK[k]] = TOK[v]
     injective = len(set(map(repr, mapping.values()))) == len(mapping)
     ctx.count("monitor:ctor")
+    # the argument in several spellings: a dict of the pool's own objects, a dict of equal-but-not-identical objects,
+    # a read-only proxy, a UserDict, by keyword
+    how = len(pairs) % 5
+    src = {fresh(k): fresh(v) for k, v in pairs} if how else mapping
+    if how == 2:
+        import types
+
+        arg = types.MappingProxyType(src)
+    elif how == 3:
+        import collections
+
+        arg = collections.UserDict(src)
+    else:
+        arg = src
     try:
-        bm = BiMap(mapping)
+        if how == 4:
+            try:
+                bm = BiMap(fwd=arg)
+            except TypeError:
+                ctx.count("absent:BiMap(fwd=...)")
+                bm = BiMap(arg)
+        else:
+            bm = BiMap(arg)
         got = "ok"
     except NotBijection:
         got = "NotBijection"
@@ -240,9 +343,9 @@ def run_ctor(ctx, pairs, stratum="ctor"):
     if got == "ok":
         compare(ctx, bm, dict(mapping), ALL, -1, stratum, pairs)
         # the new map must be independent of the argument
-        if mapping:
-            k0 = next(iter(mapping))
-            del mapping[k0]
+        if mapping and how in (0, 1, 4):
+            k0 = next(iter(src))
+            del src[k0]
             if k0 not in bm:
                 ctx.disc(None, "ctor-aliases-argument", pairs, "independent copy", "aliased",
                          stratum=stratum, case=pairs)
@@ -257,7 +360,42 @@ def drain_invariant(ctx, stratum, case):
     ctx.counters["monitor:icontract-invariant"] = Inv.evals
 
 
+def gen_random(r, maxl):
+    dom = ALL if r.random() < 0.7 else r.sample(ALL, 3)
+    al = alphabet(ALL) if dom is ALL else alphabet(dom)
+    hist = []
+    for _ in range(r.randint(3, maxl)):
+        if r.random() < 0.12:
+            o = r.choice(MAPPING_OPS)
+            if o in ("pop",):
+                hist.append([o, r.choice(dom)])
+            elif o == "setdefault":
+                hist.append([o, r.choice(dom), r.choice(dom)])
+            elif o == "update":
+                hist.append([o, [[r.choice(dom), r.choice(dom)] for _ in range(r.randint(0, 3))], r.random() < 0.5])
+            else:
+                hist.append([o])
+        else:
+            hist.append(r.choice(al))
+    init = None
+    if r.random() < 0.4:
+        ks, vs = r.sample(ALL, r.randint(1, 4)), r.sample(ALL, 4)
+        init = [[k, v] for k, v in zip(ks, vs)]
+    return hist, init
+
+
 def run(ctx):
+    # --- blind histories FIRST, on the class as it is (before the invariant walk is attached): a run of mutators
+    # with nothing read in between, everything compared once at the end
+    from hugr.utils import BiMap as _B
+
+    if not getattr(_B, "_verif_inv", False):
+        for i in ctx.mine(ctx.n(6000, 150000)):
+            r = ctx.rng("blind", i)
+            hist, init = gen_random(r, ctx.n(12, 30))
+            case = {"hist": hist, "init": init, "blind": True}
+            d = ctx.guard("blind", case, run_history, ctx, hist, ALL, "blind", init, True)
+            ctx.case("blind", case, bool(d))
     armed = _arm_icontract()
     if not armed:
         ctx.notes.append("icontract unavailable")
@@ -284,13 +422,12 @@ def run(ctx):
     maxl = ctx.n(25, 60)
     for i in ctx.mine(nrand):
         r = ctx.rng("random", i)
-        dom = ALL if r.random() < 0.7 else r.sample(ALL, 3)
-        al = alpha5 if dom is ALL else alphabet(dom)
-        hist = [r.choice(al) for _ in range(r.randint(3, maxl))]
-        d = ctx.guard("random", hist, run_history, ctx, hist, ALL, "random")
-        ctx.case("random", hist, d)
+        hist, init = gen_random(r, maxl)
+        case = {"hist": hist, "init": init}
+        d = ctx.guard("random", case, run_history, ctx, hist, ALL, "random", init)
+        ctx.case("random", case, d)
         if Inv.broken:
-            drain_invariant(ctx, "random", hist)
+            drain_invariant(ctx, "random", case)
     # --- constructor
     for i in ctx.mine(ctx.n(3000, 60000)):
         r = ctx.rng("ctor", i)
@@ -301,10 +438,14 @@ def run(ctx):
 
 
 def replay(ctx, rec):
-    _arm_icontract()
     st, case = rec.get("stratum"), rec.get("case")
     if st == "ctor":
         run_ctor(ctx, case)
+    elif isinstance(case, dict):
+        if not case.get("blind"):
+            _arm_icontract()
+        run_history(ctx, case["hist"], ALL, st or "random", case.get("init"), bool(case.get("blind")))
     else:
+        _arm_icontract()
         run_history(ctx, case, ALL, st or "random")
     drain_invariant(ctx, st, case)
